@@ -21,10 +21,27 @@ func init() { register(Engine{"dispatch", runDispatch}) }
 type dPolicy struct{ a, e, i string } // R P O N
 
 type dServerSpec struct {
+	base  dPolicy // the server's base SecurityConfig (zero value = O/O/O); used where a command has no own policy
 	pol   map[int]dPolicy
-	perms map[int][]string
+	perms map[int][]string // a command may be registered with NO permission level at all
 	raw   []int
 	authz map[string][]string // nil = no authorizer
+	cmds  []int               // the command numbers sequences are drawn from (nil = the default set)
+}
+
+func (s dServerSpec) basePol() dPolicy {
+	if s.base.a == "" {
+		return dPolicy{"O", "O", "O"}
+	}
+	return s.base
+}
+
+// polOf: the policy in force for a command: its own, else the server's base configuration.
+func (s dServerSpec) polOf(cmd int) dPolicy {
+	if p, ok := s.pol[cmd]; ok {
+		return p
+	}
+	return s.basePol()
 }
 
 func lv(s string) security.SecurityLevel {
@@ -56,8 +73,9 @@ type dServer struct {
 
 func newDServer(spec dServerSpec) *dServer {
 	d := &dServer{spec: spec, keep: map[int]bool{}}
-	base := &security.SecurityConfig{AuthMethods: toMethods([]string{"CLAIMTOBE"}), Authentication: security.SecurityOptional,
-		CryptoMethods: toCiphers([]string{"AES"}), Encryption: security.SecurityOptional, Integrity: security.SecurityOptional}
+	bp := spec.basePol()
+	base := &security.SecurityConfig{AuthMethods: toMethods([]string{"CLAIMTOBE"}), Authentication: lv(bp.a),
+		CryptoMethods: toCiphers([]string{"AES"}), Encryption: lv(bp.e), Integrity: lv(bp.i)}
 	d.srv = server.New(base)
 	d.srv.SecurityConfigForCommand = func(cmd int) *security.SecurityConfig {
 		d.mu.Lock()
@@ -148,7 +166,8 @@ func (s dServerSpec) line() string {
 		}
 		a = strings.Join(az, ";")
 	}
-	return fmt.Sprintf("server pol=%s perms=%s raw=%s authz=%s", strings.Join(pol, ";"), strings.Join(perms, ";"), joinOrDash(raw), a)
+	bp := s.basePol()
+	return fmt.Sprintf("server pol=%s perms=%s raw=%s authz=%s base=%s/%s/%s", strings.Join(pol, ";"), strings.Join(perms, ";"), joinOrDash(raw), a, bp.a, bp.e, bp.i)
 }
 
 type dClient struct {
@@ -168,10 +187,27 @@ func ints(l []int) string {
 	return strings.Join(o, ",")
 }
 
+// dHonestBound is a generous upper bound for steps of an honest in-memory exchange (nothing here
+// measures time; the bound only keeps a wedged run from hanging).
+const dHonestBound = 20 * time.Second
+
 // dConn runs one connection: handshake for `first`, then follow-on command integers.
+//
+// closed reports whether the SERVER closed its end of the connection, observed BEFORE the harness
+// closes anything of its own whenever the server is expected to end the connection by itself (a
+// refused or unknown command, a handler that did not ask for keep-alive, a failed handshake): the
+// harness waits for ServeConn to return and reads whether Close was called on the server's own end.
+// Only when the server is legitimately waiting for a further command (every command sent so far
+// ran and asked for keep-alive) does the harness close the client end first.
 func dConn(d *dServer, cl dClient, cache *security.SessionCache, first int, follow []int, explicitSid string) (evs string, a, e bool, hsOK, resumed bool, closed bool, sid string) {
+	evs, a, e, hsOK, resumed, closed, sid, _ = dConnVC(d, cl, cache, first, follow, explicitSid)
+	return
+}
+
+// dConnVC also returns the ValidCommands the server advertised in its post-auth ad ("" on a resumed connection).
+func dConnVC(d *dServer, cl dClient, cache *security.SessionCache, first int, follow []int, explicitSid string) (evs string, a, e bool, hsOK, resumed bool, closed bool, sid string, advert string) {
 	ca, cb := bufpipe.Pair("10.0.0.1:1111", "10.0.0.2:9618")
-	ctx, cancel := context.WithTimeout(context.Background(), 800*time.Millisecond)
+	ctx, cancel := context.WithTimeout(context.Background(), dHonestBound)
 	defer cancel()
 	d.mu.Lock()
 	d.log = nil
@@ -184,37 +220,92 @@ func dConn(d *dServer, cl dClient, cache *security.SessionCache, first int, foll
 	au := security.NewAuthenticator(cc, cst)
 	neg, err := au.ClientHandshake(ctx)
 	resumed = au.WasSessionResumed()
+	sent := 0
 	if err == nil {
 		hsOK = true
+		sent = 1
 		sid = neg.SessionId
+		if !resumed {
+			advert = neg.ValidCommands
+		}
 		a, e = neg.Authentication, cst.IsEncrypted()
 		for _, c := range follow {
 			m := message.NewMessageForStream(cst)
 			if m.PutInt(ctx, c) != nil || m.FinishMessage(ctx) != nil {
 				break
 			}
-			// give the server a moment to dispatch; it answers nothing, so just proceed
-			time.Sleep(2 * time.Millisecond)
+			sent++
 		}
-		// wait for the server to finish what it will do, then close
-		time.Sleep(5 * time.Millisecond)
+	}
+	// Wait for the server to end the connection by itself, or to be demonstrably waiting for the
+	// next command (every command sent has entered its handler and the last one keeps alive).
+	serverEnded := false
+	if hsOK {
+		deadline := time.Now().Add(dHonestBound)
+	wait:
+		for time.Now().Before(deadline) {
+			select {
+			case <-done:
+				serverEnded = true
+				break wait
+			default:
+			}
+			d.mu.Lock()
+			waiting := len(d.log) == sent && sent > 0 && d.keep[d.log[len(d.log)-1].cmd]
+			d.mu.Unlock()
+			if waiting {
+				// the handler has been entered; give ServeConn the chance to return if it is going to
+				select {
+				case <-done:
+					serverEnded = true
+				case <-time.After(3 * time.Millisecond):
+				}
+				break wait
+			}
+			time.Sleep(100 * time.Microsecond)
+		}
+	}
+	if serverEnded {
+		closed = cb.ClosedBySelf() // before any close of the harness's own
 	}
 	ca.Close()
 	<-done
-	closed = cb.IsClosed()
+	if !serverEnded {
+		closed = cb.ClosedBySelf() // the peer went away: the server must still release its end
+	}
 	d.mu.Lock()
 	var parts []string
 	for _, inv := range d.log {
 		parts = append(parts, fmt.Sprintf("ran:%d", inv.cmd))
 	}
 	d.mu.Unlock()
-	parts = append(parts, "closed")
-	return strings.Join(parts, " "), a, e, hsOK, resumed, closed, sid
+	if closed {
+		parts = append(parts, "closed")
+	} else {
+		parts = append(parts, "open")
+	}
+	return strings.Join(parts, " "), a, e, hsOK, resumed, closed, sid, advert
 }
 
+// dVC renders an advertised command list: sorted numbers, `-` when empty.
+func dVC(advert string) (string, []int) {
+	var l []int
+	for _, x := range strings.Split(advert, ",") {
+		x = strings.TrimSpace(x)
+		var n int
+		if _, err := fmt.Sscan(x, &n); err == nil && x != "" {
+			l = append(l, n)
+		}
+	}
+	sort.Ints(l)
+	return ints(l), l
+}
+
+// dRaw sends one command on the raw (no-handshake) path and reports what ran and whether the SERVER
+// closed its end (read before the harness closes its own).
 func dRaw(d *dServer, cmd int) string {
 	ca, cb := bufpipe.Pair("10.0.0.1:1111", "10.0.0.2:9618")
-	ctx, cancel := context.WithTimeout(context.Background(), 300*time.Millisecond)
+	ctx, cancel := context.WithTimeout(context.Background(), dHonestBound)
 	defer cancel()
 	d.mu.Lock()
 	d.log = nil
@@ -226,6 +317,7 @@ func dRaw(d *dServer, cmd int) string {
 	_ = m.PutInt(ctx, cmd)
 	_ = m.FinishMessage(ctx)
 	<-done
+	closed := cb.ClosedBySelf()
 	ca.Close()
 	d.mu.Lock()
 	defer d.mu.Unlock()
@@ -233,7 +325,11 @@ func dRaw(d *dServer, cmd int) string {
 	for _, inv := range d.log {
 		parts = append(parts, fmt.Sprintf("ran:%d", inv.cmd))
 	}
-	parts = append(parts, "closed")
+	if closed {
+		parts = append(parts, "closed")
+	} else {
+		parts = append(parts, "open")
+	}
 	return strings.Join(parts, " ")
 }
 
@@ -251,6 +347,14 @@ func runDispatch(c *Ctx) error {
 			perms: map[int][]string{7: {"READ"}, 8: {"DAEMON"}, 10: {"READ", "WRITE"}, 11: {"WRITE"}}, raw: []int{9},
 			authz: map[string][]string{"READ": {"root"}, "DAEMON": {"someoneelse"}, "WRITE": {"root"}}},
 	}
+	edgePol := map[int]dPolicy{7: {"O", "O", "O"}, 8: {"R", "R", "O"}, 13: {"O", "O", "O"}} // 12 has NO policy of its own: the base applies
+	edgePerms := map[int][]string{7: {"READ"}, 8: {"DAEMON"}, 12: {"READ"}, 13: {}} // 13 is registered with NO permission level
+	edgeCmds := []int{7, 8, 12, 13, 9, 99}
+	specs = append(specs,
+		dServerSpec{base: dPolicy{"R", "O", "O"}, pol: edgePol, perms: edgePerms, raw: []int{9}, cmds: edgeCmds,
+			authz: map[string][]string{"READ": {"*"}, "DAEMON": {"root"}, "WRITE": {"nobody"}}},
+		dServerSpec{base: dPolicy{"O", "R", "O"}, pol: edgePol, perms: edgePerms, raw: []int{9}, cmds: edgeCmds, authz: nil},
+	)
 	clients := []dClient{
 		{"P", "O", []string{"CLAIMTOBE"}, []string{"AES"}},  // authenticated + encrypted
 		{"N", "O", []string{"CLAIMTOBE"}, []string{"AES"}},  // unauthenticated + encrypted
@@ -258,22 +362,34 @@ func runDispatch(c *Ctx) error {
 		{"N", "N", []string{"CLAIMTOBE"}, []string{"3DES"}}, // neither
 	}
 	maxLen := c.Pick(3, 4)
-	var seqs [][]int
-	var gen func(pre []int)
-	gen = func(pre []int) {
-		if len(pre) > 0 {
-			seqs = append(seqs, append([]int{}, pre...))
+	seqsOf := func(cmds []int) [][]int {
+		var seqs [][]int
+		var gen func(pre []int)
+		gen = func(pre []int) {
+			if len(pre) > 0 {
+				seqs = append(seqs, append([]int{}, pre...))
+			}
+			if len(pre) == maxLen {
+				return
+			}
+			for _, x := range cmds {
+				gen(append(pre, x))
+			}
 		}
-		if len(pre) == maxLen {
-			return
-		}
-		for _, x := range cmds {
-			gen(append(pre, x))
-		}
+		gen(nil)
+		return seqs
 	}
-	gen(nil)
 	for si, spec := range specs {
 		d := newDServer(spec)
+		if spec.cmds != nil {
+			cmds = spec.cmds
+		}
+		seqs := seqsOf(cmds)
+		var authCmds []int // the registered authenticated commands of this spec
+		for x := range spec.perms {
+			authCmds = append(authCmds, x)
+		}
+		sort.Ints(authCmds)
 		for ci, cl := range clients {
 			for _, seq := range seqs {
 				// sample sequences in the quick tier (all of length <=2, a third of the longer ones)
@@ -284,7 +400,7 @@ func runDispatch(c *Ctx) error {
 				cache := security.NewSessionCache()
 				keep := map[int]bool{}
 				var keepL []int
-				for _, x := range []int{7, 8, 10, 11} {
+				for _, x := range authCmds {
 					if c.Rng.Intn(4) != 0 {
 						keep[x] = true
 						keepL = append(keepL, x)
@@ -297,10 +413,11 @@ func runDispatch(c *Ctx) error {
 				ops = append(ops, spec.line())
 				real = append(real, "ok")
 				first, follow := seq[0], seq[1:]
-				evs, a, e, hsOK, _, closed, sid := dConn(d, cl, cache, first, follow, "")
+				evs, a, e, hsOK, _, closed, sid, advert := dConnVC(d, cl, cache, first, follow, "")
 				r := "ok hs-failed"
+				vcTok, vcList := dVC(advert)
 				if hsOK {
-					r = fmt.Sprintf("ok a=%s e=%s %s", b01(a), b01(e), evs)
+					r = fmt.Sprintf("ok a=%s e=%s vc=%s %s", b01(a), b01(e), vcTok, evs)
 				}
 				op := fmt.Sprintf("conn cauth=%s cenc=%s cmethods=%s cciphers=%s user=root first=%d follow=%s keep=%s", cl.auth, cl.enc, joinOrDash(cl.methods), joinOrDash(cl.ciphers), first, ints(follow), ints(keepL))
 				ops = append(ops, op)
@@ -312,7 +429,7 @@ func runDispatch(c *Ctx) error {
 				d.mu.Unlock()
 				judge := func(sp dServerSpec, log []invocation, sessAuth bool, pre string) {
 					for _, inv := range log {
-						p, has := sp.pol[inv.cmd]
+						p, has := sp.polOf(inv.cmd), true
 						viol := func(k, what string) {
 							c.Violate(Violation{Property: "C05", Key: "C05:" + pre + k, What: what, Ops: append([]string{}, ops...), Expected: "handler not invoked", Observed: fmt.Sprintf("%+v", inv)})
 						}
@@ -349,8 +466,59 @@ func runDispatch(c *Ctx) error {
 					}
 				}
 				judge(spec, log, a, "")
+				// ---- the valid-commands advertisement (postAuthPolicy): limited to what THIS session can
+				// run now — a registered authenticated command with at least one permission level, whose
+				// current level the session meets, for which the identity is currently authorized. Without
+				// an authorizer the security layer advertises just the negotiated command.
+				if hsOK {
+					// the security layer never sends an empty list: when the policy yields no command at all
+					// it leaves its default, the negotiated command (which the dispatch then refuses) — that
+					// one entry is the protocol's placeholder, not an advertisement (counted, not judged)
+					if len(vcList) == 1 && vcList[0] == first {
+						c.Count("advert:only-the-negotiated-command")
+						vcList = nil
+					}
+					for _, vcmd := range vcList {
+						bad := ""
+						ps, reg := spec.perms[vcmd]
+						p := spec.polOf(vcmd)
+						switch {
+						case !reg:
+							bad = "not a registered authenticated command"
+						case spec.authz == nil && vcmd != first:
+							bad = "not the negotiated command (no authorizer: nothing else may be advertised)"
+						case p.a == "R" && !a:
+							bad = "mandates authentication, the session is unauthenticated"
+						case (p.e == "R" || p.i == "R") && !e:
+							bad = "mandates encryption/integrity, the session is plaintext"
+						case spec.authz != nil:
+							okz := false
+							for _, perm := range ps {
+								for _, u := range spec.authz[perm] {
+									if u == "*" || (a && u == "root") {
+										okz = true
+									}
+								}
+							}
+							if !okz {
+								bad = "the session's identity is not authorized at any of its levels (or it has none)"
+							}
+						}
+						if bad != "" {
+							c.Violate(Violation{Property: "C05", Key: "C05:advertised-command-not-runnable", What: "the server advertised as valid for the session a command the session cannot run now: " + bad,
+								Ops: append([]string{}, ops...), Expected: fmt.Sprintf("command %d not advertised", vcmd), Observed: "ValidCommands=" + vcTok})
+						}
+					}
+				}
 				if hsOK && !closed {
-					c.Violate(Violation{Property: "C05", Key: "C05:left-open", What: "the connection was not closed at the end of the dispatch", Ops: ops, Expected: "closed", Observed: "open"})
+					// the property text: "a refused or unknown command closes the connection". The server's own
+					// end was never closed by the server (read before the harness closed anything when the
+					// server ended the dispatch by itself).
+					if len(log) < len(seq) {
+						c.Violate(Violation{Property: "C05", Key: "C05:refusal-left-open", What: "a refused or unknown command ended the dispatch but the server did not close the connection", Ops: ops, Expected: "server closes its end of the connection", Observed: evs})
+					} else {
+						c.Violate(Violation{Property: "C05", Key: "C05:left-open", What: "the connection was not closed by the server at the end of the dispatch", Ops: ops, Expected: "closed", Observed: evs})
+					}
 				}
 				// reconnect with a different command: through the client's cache, or by naming the
 				// session explicitly (a client may resume any session it holds for ANY command);
@@ -361,7 +529,7 @@ func runDispatch(c *Ctx) error {
 					now := spec
 					if c.Rng.Intn(2) == 0 {
 						alt := specs[c.Rng.Intn(len(specs))]
-						now = dServerSpec{pol: map[int]dPolicy{}, perms: spec.perms, raw: spec.raw, authz: alt.authz}
+						now = dServerSpec{base: spec.base, cmds: spec.cmds, pol: map[int]dPolicy{}, perms: spec.perms, raw: spec.raw, authz: alt.authz}
 						for k, v := range spec.pol {
 							now.pol[k] = v
 						}
@@ -373,18 +541,26 @@ func runDispatch(c *Ctx) error {
 						real = append(real, "ok")
 						c.Count("reconfig")
 					}
-					other := pick(c, []int{7, 8, 10, 11})
+					other := pick(c, authCmds)
+					var follow2 []int // follow-on commands on the reconnected (possibly RESUMED) connection
+					for k := c.Rng.Intn(3); k > 0; k-- {
+						follow2 = append(follow2, pick(c, cmds))
+					}
 					ex := ""
 					if e && sid != "" && c.Rng.Intn(2) == 0 { // only a keyed session can be resumed at all (C06)
 						ex = sid
 						c.Count("reconnect-explicit-sid")
 					}
-					evs2, a2, e2, ok2, resumed, _, _ := dConn(d, cl, cache, other, nil, ex)
+					evs2, a2, e2, ok2, resumed, closed2, _, advert2 := dConnVC(d, cl, cache, other, follow2, ex)
 					r2 := "ok hs-failed"
+					vc2, _ := dVC(advert2)
 					if ok2 {
-						r2 = fmt.Sprintf("ok a=%s e=%s %s", b01(a2), b01(e2), evs2)
+						r2 = fmt.Sprintf("ok a=%s e=%s vc=%s %s", b01(a2), b01(e2), vc2, evs2)
 					}
-					ops = append(ops, fmt.Sprintf("reconn resumed=%s cauth=%s cenc=%s cmethods=%s cciphers=%s user=root first=%d follow=- keep=%s", b01(resumed), cl.auth, cl.enc, joinOrDash(cl.methods), joinOrDash(cl.ciphers), other, ints(keepL)))
+					if resumed && len(follow2) > 0 {
+						c.Count("reconnect-resumed-with-follow-ons")
+					}
+					ops = append(ops, fmt.Sprintf("reconn resumed=%s cauth=%s cenc=%s cmethods=%s cciphers=%s user=root first=%d follow=%s keep=%s", b01(resumed), cl.auth, cl.enc, joinOrDash(cl.methods), joinOrDash(cl.ciphers), other, ints(follow2), ints(keepL)))
 					real = append(real, r2)
 					if resumed {
 						c.Count("reconnect-resumed")
@@ -398,6 +574,13 @@ func runDispatch(c *Ctx) error {
 						sa = a // a resumed session is exactly as authenticated as the handshake that created it
 					}
 					judge(now, log2, sa, "reconnect:")
+					if ok2 && !closed2 {
+						k := "C05:reconnect:left-open"
+						if len(log2) < 1+len(follow2) {
+							k = "C05:reconnect:refusal-left-open"
+						}
+						c.Violate(Violation{Property: "C05", Key: k, What: "after the reconnect the server ended the dispatch without closing the connection", Ops: ops, Expected: "server closes its end of the connection", Observed: evs2})
+					}
 				}
 				c.Distinct(fmt.Sprintf("%d|%d|%v|%v", si, ci, seq, keepL), len(seq) >= 2 || ci != 0)
 				cases = append(cases, Case{Label: fmt.Sprintf("dispatch spec%d client%d %v", si, ci, seq), Ops: ops, Real: real})
@@ -412,9 +595,12 @@ func runDispatch(c *Ctx) error {
 			real := []string{"ok", "ok " + dRaw(d, x)}
 			c.Distinct(fmt.Sprintf("raw|%d|%d", si, x), true)
 			cases = append(cases, Case{Label: "raw", Ops: ops, Real: real})
+			if strings.HasSuffix(real[1], "open") {
+				c.Violate(Violation{Property: "C05", Key: "C05:raw-path-left-open", What: "the raw path ended (unknown / non-raw command refused, or raw handler returned) but the server did not close the connection", Ops: ops, Expected: "server closes its end of the connection", Observed: real[1]})
+			}
 			if strings.Contains(real[1], "ran:") {
-				for _, rc := range []int{7, 8, 10, 11} {
-					if strings.Contains(real[1], fmt.Sprintf("ran:%d", rc)) {
+				for _, rc := range authCmds {
+					if strings.Contains(real[1], fmt.Sprintf("ran:%d ", rc)) {
 						c.Violate(Violation{Property: "C05", Key: "C05:auth-handler-via-raw-path", What: "an authenticated handler was reached through the raw no-handshake path", Ops: ops, Expected: "closed", Observed: real[1]})
 					}
 				}
